@@ -367,7 +367,9 @@ class Session:
     def op_lex_set_regex(self, op):
         from sqlparse import keywords, tokens
         lx = self._lexer()
-        if op.get('which') == 'subset':
+        if op.get('which') == 'stock':
+            rx = keywords.SQL_REGEX       # the module-level list itself
+        elif op.get('which') == 'subset':
             rx = [r for r in keywords.SQL_REGEX][::2]
         else:
             rx = [(r'ZORG\b', tokens.Keyword)] + list(keywords.SQL_REGEX)
